@@ -54,6 +54,37 @@ def run(tier):
     stock = [c for c in (QUICK if quick else stock_cases()) if os.path.exists(os.path.join("/repo/andes/cases", c))]
     tasks += [dict(kind="stock", case=c, sid="stock[%s]" % c) for c in stock]
     res = run_tasks("vh.initdrv:task", tasks, nproc=NCPU, timeout=1200)
+    # variants of the cases that initialise and stay as shipped: one controller / measurement device out of service, and
+    # the documented load-model weights (constant power / current / impedance shares, P and Q chosen independently)
+    good = []
+    for t, x in zip(tasks, res):
+        if t["kind"] == "stock" and x["status"] == "ok" and "skipped" not in x["result"]:
+            ev0 = x["result"]["ev"]
+            if ev0 and not ev0[0]["raised"] and ev0[0]["test_ok"] and ev0[-1].get("e") == "flat" and ev0[-1]["stays"]:
+                good.append(t["case"])
+    variants = []
+    from ..common import andes_mod
+    andes_mod()
+    from ..initdrv import OFFLINE_GROUPS
+    import andes
+    probe = andes.System(**__import__("vh.common", fromlist=["sys_kwargs"]).sys_kwargs())
+    ctrl_models = [m for g in OFFLINE_GROUPS if g in probe.groups for m in probe.groups[g].models]
+    WEIGHTS = [dict(p2p=1, p2i=0, p2z=0, q2q=1, q2i=0, q2z=0), dict(p2p=0, p2i=1, p2z=0, q2q=0, q2i=0, q2z=1),
+               dict(p2p=1, p2i=0, p2z=0, q2q=0, q2i=1, q2z=0), dict(p2p=0.2, p2i=0.3, p2z=0.5, q2q=0.5, q2i=0.1, q2z=0.4)]
+    for k, c in enumerate(good[:(5 if quick else 40)]):
+        for w in (WEIGHTS[k % 2::2] if quick else WEIGHTS):
+            variants.append(dict(kind="stock", case=c, sid="stock[%s|PQ weights %s]" % (c, ",".join("%s=%s" % kv for kv in sorted(w.items()))),
+                                 pq_weights=w, baseline_ok=True, probes=False, flat=False))
+    for c in good[:(8 if quick else 60)]:
+        for m in ctrl_models:
+            variants.append(dict(kind="stock", case=c, sid="stock[%s|first %s out of service]" % (c, m), offline=m, baseline_ok=True,
+                                 probes=False, flat=False))
+    vres = run_tasks("vh.initdrv:task", variants, nproc=NCPU, timeout=1200)
+    tasks = tasks + variants
+    res = res + vres
+    rep.extra["variants_of_cases_that_initialise"] = dict(cases=len(good), load_weight_variants=sum(1 for v in variants if v.get("pq_weights")),
+                                                          offline_variants_run=sum(1 for v, x in zip(variants, vres) if v.get("offline")
+                                                                                   and x["status"] == "ok" and "skipped" not in x["result"]))
     traces = []
     for t, x in zip(tasks, res):
         rep.count()
